@@ -12,6 +12,7 @@ from __future__ import annotations
 import ast
 
 from .core import AnalysisError, loc, norm_src, walk_no_nested, dotted, str_const
+from .core import Inliner as _InlQ
 from .symx import Interp, Obj, Path, PList, NArr, Unsupported, explore, Abort, MONTH
 from .rat import Rat, K
 from .nphooks import np_hook
@@ -294,6 +295,52 @@ def quant(index, rep):
                         and dotted(s.value.func) in ("np.zeros", "np.ones", "np.empty", "np.full") and any(
                             k.arg == "dtype" and "int" in norm_src(k.value) for k in s.value.keywords):
                     ints[s.targets[0].id] = s
+            # element type of array expressions (a small dtype inference): arange of whole numbers, full(n, <int>), *_like(<int array>),
+            # and arithmetic other than true division stay integer; np.piecewise keeps the element type of its first argument
+            inl_q = _InlQ(fn)
+
+            def int_typed(e, depth=0):
+                if depth > 6:
+                    return False
+                if isinstance(e, ast.Constant):
+                    return isinstance(e.value, int) and not isinstance(e.value, bool)
+                if isinstance(e, ast.Name):
+                    d_ = inl_q.single(e.id)
+                    return d_ is not None and int_typed(d_, depth + 1)
+                if isinstance(e, ast.Attribute):
+                    return e.attr in ("NMONTHS", "greenhouse_delay")
+                if isinstance(e, ast.BinOp):
+                    if isinstance(e.op, ast.Div):
+                        return False
+                    return int_typed(e.left, depth + 1) and int_typed(e.right, depth + 1)
+                if isinstance(e, ast.UnaryOp):
+                    return int_typed(e.operand, depth + 1)
+                if isinstance(e, ast.Call):
+                    d_ = dotted(e.func) or ""
+                    if any(k.arg == "dtype" for k in e.keywords):
+                        return any(k.arg == "dtype" and "int" in norm_src(k.value) for k in e.keywords)
+                    if d_ == "np.arange":
+                        return bool(e.args) and all(int_typed(a_, depth + 1) for a_ in e.args)
+                    if d_ == "np.full" and len(e.args) >= 2:
+                        return int_typed(e.args[1], depth + 1)
+                    if d_ in ("np.zeros_like", "np.ones_like", "np.empty_like", "np.full_like", "np.copy", "np.piecewise", "np.clip") and e.args:
+                        return int_typed(e.args[0], depth + 1)
+                    if d_ in ("len", "int", "round") and len(e.args) == 1:
+                        return True
+                return False
+
+            def fractional(e):
+                return any(isinstance(n_, ast.BinOp) and isinstance(n_.op, ast.Div) for n_ in ast.walk(e)) or any(
+                    isinstance(n_, ast.Constant) and isinstance(n_.value, float) and n_.value != int(n_.value) for n_ in ast.walk(e))
+
+            for c_ in walk_no_nested(fn):
+                if isinstance(c_, ast.Call) and dotted(c_.func) == "np.piecewise" and len(c_.args) >= 3 and int_typed(c_.args[0]):
+                    vals = c_.args[2].elts if isinstance(c_.args[2], (ast.List, ast.Tuple)) else [c_.args[2]]
+                    if any(fractional(v_) or not (isinstance(v_, ast.Constant) or isinstance(v_, ast.Lambda)) for v_ in vals):
+                        bad_pw = norm_src(c_.args[0])[:40]
+                        rep.check(False, rule, f"{clsname}.{m}: np.piecewise over whole-number positions `{bad_pw}`",
+                                  f"np.piecewise gives its result the element type of its first argument; `{bad_pw}` holds whole numbers (np.arange of "
+                                  "integers), so the fractional values computed for each piece are truncated (245.256 -> 245)", loc=loc(rel, c_))
             for name, st in ints.items():
                 stores = [s for top in _reachable_after(st, name) for s in ([top] + list(walk_no_nested(top)))
                           if isinstance(s, (ast.Assign, ast.AugAssign)) and any(
